@@ -59,9 +59,11 @@ def run_impl(case):
                 if not rk['fired'] or rk['before'] != r0['before']:
                     return {'crash': 'non-deterministic primitive sequence at k=%d' % k}
                 crashes.append({'k': k, 'prim': r0['trace'][k], 'wb': rk['writes_before'], 'outcome': rk['outcome'],
-                                'obs': rk['after']})
+                                'obs': rk['after'], 'post': rk.get('post_obs', rk['after']),
+                                'post_outcome': rk.get('post_outcome')})
             return {'before': r0['before'], 'outcome': r0['outcome'], 'after': r0['after'], 'trace': r0['trace'],
-                    'crashes': crashes}
+                    'crashes': crashes, 'after_post': r0.get('post_obs', r0['after']),
+                    'post_outcome': r0.get('post_outcome')}
     except vlib.Timeout:
         return {'hang': True}
     except Exception as e:
@@ -104,10 +106,14 @@ def to_coq(case, obs):
     if 'crash' in obs or 'hang' in obs or obs['outcome'] == 'fault':
         return 'CCrash'
     out = 'OutOk' if obs['outcome'] == 'ok' else '(OutErr %s)' % ERR[obs['outcome']]
-    return '(CStore %s %s %s %s %s %s %s)' % (
+    if any(c.get('post_outcome') == 'fault' for c in obs['crashes']) or obs.get('post_outcome') == 'fault':
+        return 'CCrash'
+    return '(CStore %s %s %s %s %s %s %s %s %s)' % (
         BACKEND[case['backend']], glist(lambda o: g_op(case['objs'], o), case['history']),
         g_op(case['objs'], case['final']), g_obs(obs['before']), out, g_obs(obs['after']),
-        glist(lambda c: '{| writes_before := %s; seen := %s |}' % (gN(c['wb']), g_obs(c['obs'])), obs['crashes']))
+        glist(lambda c: '{| writes_before := %s; seen := %s; seen_post := %s |}' % (
+            gN(c['wb']), g_obs(c['obs']), g_obs(c['post'])), obs['crashes']),
+        '(Some %s)' % g_op(case['objs'], case['post']) if case.get('post') else 'None', g_obs(obs['after_post']))
 
 
 # ---------------------------------------------------------------------------------------------------------------------
@@ -133,7 +139,7 @@ class Scn:
 
     def case(self, final, note=''):
         return {'kind': 'store', 'backend': self.backend, 'fault': self.fault, 'objs': self.objs,
-                'history': self.history, 'final': final, 'note': note}
+                'history': self.history, 'final': final, 'note': note, 'post': None}
 
 
 def ids_in(objs, tag, acc=None):
@@ -265,7 +271,31 @@ def rand_case(rng, backend):
     return s.case({'op': 'store' if mode == 'store' else 'overwrite', 't': root}, 'rand ' + mode)
 
 
+def add_post(case, rng):
+    """a follow-up operation on the same PulseStorage after the (failed) final operation: store a new root that
+    contains the object of the final operation, or repeat the final operation"""
+    f = case['final']
+    if 't' not in f:
+        return case
+    if rng.random() < 0.7:
+        tag = str(max(int(t) for t in case['objs']) + 1)
+        case['objs'][tag] = {'id': 40, 'payload': 900 + int(tag), 'kids': [f['t']], 'shape': rng.randint(0, 1),
+                             'wrap': [rng.random() < 0.5]}
+        case['post'] = {'op': 'store', 't': int(tag)}
+    else:
+        case['post'] = dict(f)
+    return case
+
+
 def gen_cases(rng, tier, ctx):
+    cases = _gen_cases(rng, tier, ctx)
+    for c in cases:
+        if rng.random() < 0.4:
+            add_post(c, rng)
+    return cases
+
+
+def _gen_cases(rng, tier, ctx):
     cases = []
     backends = ['dict', 'fs', 'zip']
     # small-scope enumeration
@@ -279,9 +309,15 @@ def gen_cases(rng, tier, ctx):
                 for preset in (0, 1, 2):
                     if preset == 0 and (cleared or rm != 'store_fresh'):
                         continue
-                    keep = 1.0 if tier == 'thorough' and len(kk) <= 2 else (0.12 if tier == 'quick' else 0.2)
+                    keep = 1.0 if tier == 'thorough' and len(kk) <= 2 else (0.16 if tier == 'quick' else 0.2)
                     if len(kk) <= 1 and tier == 'quick':
-                        keep = 0.5
+                        keep = 0.6
+                    # operations that are rejected before the first write are cheap but dominate the product space
+                    prewrite = (rm == 'store_used' or 'usedid' in kk or 'bad' in kk
+                                or (cleared and any(x.startswith('cached') for x in kk))
+                                or (rm == 'overwrite_cached1' and 'cached1' not in kk and False))
+                    if prewrite and not (tier == 'thorough' and len(kk) <= 2):
+                        keep *= 0.25
                     for b in backends:
                         if rng.random() < keep:
                             cases.append(enum_case(b, preset, rm, list(kk), cleared,
@@ -317,7 +353,8 @@ def nontrivial(case, obs):
 
 
 def histogram_keys(case, obs):
-    keys = ['backend:' + case['backend'], 'final:' + case['final']['op'], 'fault:' + case.get('fault', 'raise')]
+    keys = ['backend:' + case['backend'], 'final:' + case['final']['op'], 'fault:' + case.get('fault', 'raise'),
+            'followup:' + (case['post']['op'] if case.get('post') else 'none')]
     if 'crashes' in obs:
         n = len(obs['crashes'])
         keys.append('outcome:' + obs['outcome'])
@@ -405,6 +442,15 @@ def spec_failures(case, obs):
     ok('no-failure run', obs['after'], None)
     for c in obs['crashes']:
         ok('failure at primitive %d (%s)' % (c['k'], c['prim']), c['obs'], c['wb'])
+        if case.get('post'):
+            for e in c['post']['entries']:
+                if not e[2]:
+                    out.append(('failure at primitive %d (%s), then %s' % (c['k'], c['prim'], case['post']['op']), 'a',
+                                'n%d is listed but does not load after the follow-up operation (document %s)' % (e[0], e[1])))
+    if case.get('post') and all(e[2] for e in obs['after']['entries']):
+        for e in obs['after_post']['entries']:
+            if not e[2]:
+                out.append(('no-failure run, then follow-up', 'a', 'n%d is listed but does not load' % e[0]))
     if obs['outcome'] != 'ok':
         if {e[0]: e[1] for e in obs['after']['entries']} != before:
             out.append(('no-failure run', 'c', 'operation raised %s but changed the storage' % obs['outcome']))
